@@ -23,13 +23,13 @@ def _is_global(b):
     return '"global":true' in b[:4000] if isinstance(b, str) else b.get("global")
 
 
-def _run_shard(exe, path, tmp, timeout_s, env, per_shard_timeout):
-    """Returns (mismatch records, stats, crash records, harness errors)."""
-    mism, stats, crashes, herr = [], None, [], []
+def _run_shard(exe, path, tmp, timeout_s, env, per_shard_timeout, dump=False):
+    """Returns (mismatch records, stats, crash records, harness errors, saved values)."""
+    mism, stats, crashes, herr, saves = [], None, [], [], []
     start = 0
     t_end = time.time() + per_shard_timeout
     while True:
-        cmd = [exe, path, "--from", str(start), "--tmp", tmp, "--timeout", str(timeout_s)]
+        cmd = [exe, path, "--from", str(start), "--tmp", tmp, "--timeout", str(timeout_s)] + (["--dump", "1"] if dump else [])
         try:
             p = subprocess.run(cmd, stdout=subprocess.PIPE, stderr=subprocess.PIPE, text=True, env=env,
                                timeout=max(5, t_end - time.time()))
@@ -41,6 +41,9 @@ def _run_shard(exe, path, tmp, timeout_s, env, per_shard_timeout):
         st = None
         for line in out.splitlines():
             if line.startswith("@ "): last = int(line[2:])
+            elif line.startswith("V "):
+                f = line.split(" ")
+                saves.append((last, f[1], [float(x) for x in f[2:]]))
             elif line.startswith("M "): mism.append(json.loads(line[2:]))
             elif line.startswith("S "): st = json.loads(line[2:])
             elif line.startswith("H "): herr.append(json.loads(line[2:]))
@@ -55,10 +58,10 @@ def _run_shard(exe, path, tmp, timeout_s, env, per_shard_timeout):
         crashes.append({"index": last, "check": kind, "rc": rc, "msg": (err or "")[-1500:]})
         start = last + 1
         if last < 0: break
-    return mism, stats, crashes, herr
+    return mism, stats, crashes, herr, saves
 
 
-def replay(exe, behaviours, shards=16, timeout_s=20, env=None, per_shard_timeout=3000, keep=None):
+def replay(exe, behaviours, shards=16, timeout_s=20, env=None, per_shard_timeout=3000, keep=None, dump=False):
     """behaviours: list of JSON strings (or dicts).  Global behaviours are prepended to every shard."""
     t0 = time.time()
     res = ReplayResult()
@@ -82,9 +85,12 @@ def replay(exe, behaviours, shards=16, timeout_s=20, env=None, per_shard_timeout
                 for b in glob + part: f.write(b + "\n")
             paths.append(pth)
         with ThreadPoolExecutor(max_workers=shards) as ex:
-            outs = list(ex.map(lambda pth: _run_shard(exe, pth, tmp, timeout_s, e, per_shard_timeout), paths))
-        for i, (mism, stats, crashes, herr) in enumerate(outs):
+            outs = list(ex.map(lambda pth: _run_shard(exe, pth, tmp, timeout_s, e, per_shard_timeout, dump), paths))
+        res.saves = {}
+        for i, (mism, stats, crashes, herr, saves) in enumerate(outs):
             part = glob + parts[i]
+            for (idx, name, vals) in saves:
+                if 0 <= idx < len(part): res.saves.setdefault(part[idx], {})[name] = vals
             for m in mism:
                 m["behaviour"] = part[m["index"]]
                 res.mismatches.append(m)
